@@ -315,6 +315,14 @@ def enabled(m, cfg):
         if len(bonds[a]) >= 3 and m._atoms[a].stereo is None:
             ev.append(('atom_stereo', a, True))
             ev.append(('atom_stereo', a, False))
+    # cis/trans label through the public call, the double bond addressed from either end
+    for a in atoms:
+        for b, bd in bonds[a].items():
+            if bd.order == 2 and a < b and bd.stereo is None and len(bonds[a]) >= 2 and len(bonds[b]) >= 2:
+                a1 = next(x for x in bonds[a] if x != b)
+                b1 = next(x for x in bonds[b] if x != a)
+                ev.append(('ct_stereo', a, b, a1, b1, True))
+                ev.append(('ct_stereo', b, a, b1, a1, False))
     # transactions: first enabled event of each simple kind
     first = {}
     for e in ev:
@@ -456,6 +464,13 @@ def apply(m, e):
         from chython.exceptions import NotChiral, IsChiral
         try:
             m.add_atom_stereo(e[1], tuple(x for x in m._bonds[e[1]])[:4], e[2])
+        except (NotChiral, IsChiral, KeyError):
+            return m, 'unchanged'
+        return m, 'changed'
+    if k == 'ct_stereo':
+        from chython.exceptions import NotChiral, IsChiral
+        try:
+            m.add_cis_trans_stereo(e[1], e[2], e[3], e[4], e[5])
         except (NotChiral, IsChiral, KeyError):
             return m, 'unchanged'
         return m, 'changed'
@@ -632,7 +647,7 @@ def _wl_colours(m):
     return col
 
 
-NO_I6 = ('remap', 'clean_stereo', 'atom_stereo', 'copy', 'substructure', 'union', 'union2', 'tx_fail', 'bad', 'iunion')
+NO_I6 = ('remap', 'clean_stereo', 'atom_stereo', 'ct_stereo', 'copy', 'substructure', 'union', 'union2', 'tx_fail', 'bad', 'iunion')
 
 
 def label_persistence(pre, post):
